@@ -856,6 +856,30 @@ fn flatten_data(e: &Expr, lits: &mut Vec<String>, f: &SrcFile) -> String {
                 lits.push(i.base10_digits().to_string());
                 "#".to_string()
             }
+            syn::Lit::Str(st) => {
+                // a hexadecimal string constant such as PrimeField::MODULUS = "0x1000…": its numeric value
+                let v = st.value();
+                let h = v.trim_start_matches("0x");
+                let mut acc: Vec<u32> = vec![0]; // little-endian base 1e9 big number
+                for ch in h.chars() {
+                    let d = ch.to_digit(16).unwrap_or_else(|| die("R13: non-hex string constant")) as u64;
+                    let mut carry = d;
+                    for limb in acc.iter_mut() {
+                        let cur = (*limb as u64) * 16 + carry;
+                        *limb = (cur % 1_000_000_000) as u32;
+                        carry = cur / 1_000_000_000;
+                    }
+                    if carry > 0 {
+                        acc.push(carry as u32);
+                    }
+                }
+                let mut sdec = format!("{}", acc.last().unwrap());
+                for limb in acc.iter().rev().skip(1) {
+                    sdec.push_str(&format!("{:09}", limb));
+                }
+                lits.push(format!("spec_literal_int(\"{}\") as ", sdec));
+                "hexstr".to_string()
+            }
             _ => die("R13: non-integer literal in constant data"),
         },
         Expr::Unary(u) => {
@@ -1057,18 +1081,51 @@ fn main() {
                     files.insert(dd.file.clone(), SrcFile::load(root, &dd.file));
                 }
                 let f = &files[&dd.file];
-                let found: Vec<&Item> =
-                    find_in_items(&f.ast.items, &dd.path, f).into_iter().filter(|it| cfg.attrs_enabled(item_attrs(it))).collect();
-                if found.is_empty() {
-                    die(&format!("data item not found: {} :: {}", dd.file, dd.path.join(" :: ")));
-                }
-                let (expr, sp) = match found[0] {
-                    Item::Const(c) => (&*c.expr, c.span()),
-                    Item::Static(c) => (&*c.expr, c.span()),
-                    _ => die("R13: data item must be const or static"),
-                };
                 let mut lits = vec![];
-                let shape = flatten_data(expr, &mut lits, f);
+                let shape;
+                let sp;
+                if dd.path[0].starts_with("impl ") {
+                    // `impl <selector> :: const NAME`  or  `impl <selector> :: fn NAME` (all integer literals of the fn body)
+                    let mut impls = vec![];
+                    find_impls(&f.ast.items, dd.path[0][5..].trim(), &cfg, f, &mut impls);
+                    let mut got: Option<(String, Span)> = None;
+                    let want = dd.path.get(1).cloned().unwrap_or_default();
+                    for im in &impls {
+                        for ii in &im.items {
+                            match ii {
+                                ImplItem::Const(c) if want == format!("const {}", c.ident) && cfg.attrs_enabled(&c.attrs) => {
+                                    got = Some((flatten_data(&c.expr, &mut lits, f), c.span()));
+                                }
+                                ImplItem::Fn(x) if want == format!("fn {}", x.sig.ident) && cfg.attrs_enabled(&x.attrs) => {
+                                    struct LitV<'l> { lits: &'l mut Vec<String> }
+                                    impl<'l, 'ast> Visit<'ast> for LitV<'l> {
+                                        fn visit_lit_int(&mut self, i: &'ast syn::LitInt) { self.lits.push(i.base10_digits().to_string()); }
+                                    }
+                                    let mut lv = LitV { lits: &mut lits };
+                                    lv.visit_block(&x.block);
+                                    got = Some(("fn-body".to_string(), x.span()));
+                                }
+                                _ => {}
+                            }
+                        }
+                    }
+                    let (sh, s1) = got.unwrap_or_else(|| die(&format!("data item not found: {} :: {}", dd.file, dd.path.join(" :: "))));
+                    shape = sh;
+                    sp = s1;
+                } else {
+                    let found: Vec<&Item> =
+                        find_in_items(&f.ast.items, &dd.path, f).into_iter().filter(|it| cfg.attrs_enabled(item_attrs(it))).collect();
+                    if found.is_empty() {
+                        die(&format!("data item not found: {} :: {}", dd.file, dd.path.join(" :: ")));
+                    }
+                    let (expr, s1) = match found[0] {
+                        Item::Const(c) => (&*c.expr, c.span()),
+                        Item::Static(c) => (&*c.expr, c.span()),
+                        _ => die("R13: data item must be const or static"),
+                    };
+                    shape = flatten_data(expr, &mut lits, f);
+                    sp = s1;
+                }
                 if let Some(want) = &dd.shape {
                     if want != &shape {
                         die(&format!("R13: shape of {} changed: expected {} found {}", dd.path.join("::"), want, shape));
